@@ -10,6 +10,7 @@ Scope: all units (a sink anywhere counts), both tiers."""
 import os
 
 import facts
+import cfgq
 import pathprov
 from pathprov import Analysis, SINKS, I, L, N
 from facts import strip, show, walk, const_val
@@ -188,6 +189,12 @@ def check(run, prog, tier):
                 continue
             calls = {n.get("fn") for b, i, n in f.nodes() if n.get("k") == "Call"}
             if "check_valid_path" not in calls and not (calls & set(ret_summ)):
+                # a file-local helper that only returns a pointer into (or equal to) one of its parameters - the last
+                # component of a path, a pointer past a prefix - hands the parameter's provenance through
+                if f.static and calls <= (pathprov.PURE | {"strchr", "strrchr", "strstr", "strpbrk"}):
+                    a = StatAwareAnalysis(f, ret_summ, protos).run()
+                    if a.returns and all(t[0] == "P" for t in a.returns):
+                        ret_summ[f.name] = frozenset(a.returns)
                 continue
             a = StatAwareAnalysis(f, ret_summ, protos).run()
             tags = {t for t in a.returns if t != I or True}
@@ -414,8 +421,43 @@ def check(run, prog, tier):
     run.saw(cvp)
     a = StatAwareAnalysis(cvp, {}, protos).run()
     APPLIES = ("apply_master_ob", "safe_apply_master_ob", "apply", "safe_apply")
-    policy_calls = [(b, i, n) for b, i, n in cvp.calls(APPLIES)
-                    if n.get("args") and (facts.any_in_macro(n["args"][0], "APPLY_VALID_WRITE") or facts.any_in_macro(n["args"][0], "APPLY_VALID_READ"))]
+    WFLAG = cvp.params[3].get("n") if len(cvp.params or []) > 3 else "writeflg"     # the write flag is the fourth parameter
+
+    def apply_name(e, depth=0):
+        """(name asked when the write flag is set, name asked when it is clear) for the expression handed to the apply;
+        None where unknown.  Follows `flag ? W : R` and a local that receives such a value."""
+        e0 = strip(e)
+        if facts.any_in_macro(e0, "APPLY_VALID_WRITE") and not facts.any_in_macro(e0, "APPLY_VALID_READ"):
+            return ("W", "W")
+        if facts.any_in_macro(e0, "APPLY_VALID_READ") and not facts.any_in_macro(e0, "APPLY_VALID_WRITE"):
+            return ("R", "R")
+        if e0.get("k") == "Cond" and depth < 3:
+            c0 = strip(e0["c"])
+            neg = False
+            while c0.get("k") == "Un" and c0.get("op") == "!":
+                c0, neg = strip(c0["e"]), not neg
+            if c0.get("k") == "Ref" and c0.get("d") == "param" and c0.get("n") == WFLAG:
+                a1, b1 = apply_name(e0["a"], depth + 1), apply_name(e0["b"], depth + 1)
+                if a1 and b1:
+                    return (b1[0], a1[1]) if neg else (a1[0], b1[1])
+            return None
+        if e0.get("k") == "Ref" and e0.get("d") == "local" and depth < 3:
+            defs = [(b2, n2["R"]) for b2, i2, n2 in cvp.nodes() if n2.get("k") == "Asg" and n2.get("op") == "=" and strip(n2["L"]).get("k") == "Ref" and strip(n2["L"]).get("id") == e0.get("id")]
+            defs += [(b2, v["init"]) for b2, i2, n2 in cvp.nodes() if n2.get("k") == "Decl" for v in n2.get("vars", ()) if v.get("id") == e0.get("id") and isinstance(v.get("init"), dict)]
+            if len(defs) == 1:
+                return apply_name(defs[0][1], depth + 1)
+            if len(defs) == 2:
+                # one store on each side of a test of the flag
+                out = [None, None]
+                for b2, r2 in defs:
+                    nm = apply_name(r2, depth + 1)
+                    for c, t, gb in cfgq.guards(cvp, b2.id):
+                        c0 = strip(c)
+                        if c0.get("k") == "Ref" and c0.get("n") == WFLAG and nm:
+                            out[0 if t else 1] = nm[0 if t else 1]
+                return tuple(out) if all(out) else None
+        return None
+    policy_calls = [(b, i, n) for b, i, n in cvp.calls(APPLIES) if n.get("args") and apply_name(n["args"][0]) is not None]
     run.need(policy_calls, "valid_read/valid_write apply in check_valid_path")
     apply_blocks = [b.id for b, i, n in policy_calls]
     swallowing = [n for b, i, n in policy_calls if n["fn"].startswith("safe_")]
@@ -441,21 +483,22 @@ def check(run, prog, tier):
            what="check_valid_path returns a path that did not pass legal_path")
     # apply arguments: write flag selects valid_write / valid_read; 3 arguments pushed from the parameters
     wr_ok = rd_ok = False
-    for blk in cvp.blocks.values():
-        c = cvp.branch_cond(blk)
-        if c is None:
-            continue
-        c0 = strip(c)
-        if c0.get("k") == "Ref" and c0.get("n") == "writeflg":
-            def first_apply(bid):
-                for e in cvp.blocks[bid].el:
-                    for n in facts.calls_in(e):
-                        if n.get("fn") in APPLIES:
-                            return n
-                return None
-            t, f_ = (first_apply(s) if s is not None else None for s in blk.succ)
-            wr_ok = bool(t) and facts.any_in_macro(t["args"][0], "APPLY_VALID_WRITE") and const_val(t["args"][1]) == 3
-            rd_ok = bool(f_) and facts.any_in_macro(f_["args"][0], "APPLY_VALID_READ") and const_val(f_["args"][1]) == 3
+    # per apply call: what is asked with the flag set / clear, taking the branch on the flag that leads to the call into account
+    asked_w, asked_r = set(), set()
+    for b, i, n in policy_calls:
+        nm = apply_name(n["args"][0])
+        three = const_val(n["args"][1]) == 3 if len(n["args"]) > 1 else False
+        side = None
+        for c, t, gb in cfgq.guards(cvp, b.id):
+            c0 = strip(c)
+            if c0.get("k") == "Ref" and c0.get("n") == WFLAG:
+                side = t
+        if side in (None, True):
+            asked_w.add((nm[0], three))
+        if side in (None, False):
+            asked_r.add((nm[1], three))
+    wr_ok = asked_w == {("W", True)}
+    rd_ok = asked_r == {("R", True)}
     run.ob("C15-c", "cvp:apply:mode", wr_ok and rd_ok, "writeflg selects valid_write / valid_read with 3 arguments" if wr_ok and rd_ok else "write flag does not select valid_write/valid_read(3)",
            cvp.file, cvp.line, cvp.name, what="check_valid_path asks the wrong master function")
     pushes = []
